@@ -27,8 +27,8 @@ func propSpecs() map[string]*PropSpec {
 		lib = append(lib, rs("H_Lib", k, 2))
 	}
 	for k := int64(0); k < 24; k++ {
-		if k == 12 || k == 13 {
-			continue // channels and bare go statements: not supported by the engine (threads only through verif.Par)
+		if k == 13 {
+			continue // bare go statements: not supported by the engine (threads only through verif.Par)
 		}
 		lib = append(lib, rs("H_Lang", k))
 	}
